@@ -165,6 +165,55 @@ def subclasses(relpath, base):
 MEMO_DECORATORS = ('lru_cache', 'cache', 'cached_property', 'memoize', 'memoized', 'cached')
 
 
+_MUTATORS = {'add', 'update', 'append', 'extend', 'insert', 'pop', 'popitem', 'clear', 'remove', 'discard', 'setdefault', 'sort', 'reverse',
+             'appendleft', 'extendleft', 'popleft', 'difference_update', 'intersection_update', 'symmetric_difference_update'}
+_MUTABLE_CTORS = {'set', 'list', 'dict', 'bytearray', 'defaultdict', 'deque', 'OrderedDict', 'Counter'}
+
+
+def _mutable_default(d):
+    if isinstance(d, (ast.List, ast.Dict, ast.Set, ast.ListComp, ast.DictComp, ast.SetComp)):
+        return True
+    if isinstance(d, ast.Call):
+        head = ast.unparse(d.func).split('.')[-1]
+        return head in _MUTABLE_CTORS
+    return False
+
+
+def shared_mutable_defaults(fn):
+    """Parameters of fn whose default is a mutable container built ONCE at definition time and which the body changes in place
+    (method call from the mutator list, augmented assignment, item/slice store or delete): the container - and with it the function's
+    behaviour - carries over from one call to the next.  -> [param names]"""
+    if not isinstance(fn, (ast.FunctionDef, ast.AsyncFunctionDef)):
+        return []
+    a = fn.args
+    pos = a.posonlyargs + a.args
+    cands = []
+    for p, d in zip(pos[len(pos) - len(a.defaults):], a.defaults):
+        if _mutable_default(d):
+            cands.append(p.arg)
+    for p, d in zip(a.kwonlyargs, a.kw_defaults):
+        if d is not None and _mutable_default(d):
+            cands.append(p.arg)
+    if not cands:
+        return []
+    out = []
+    for name in cands:
+        rebound_first = False
+        hit = False
+        for n in ast.walk(fn):
+            if isinstance(n, ast.Call) and isinstance(n.func, ast.Attribute) and isinstance(n.func.value, ast.Name) \
+                    and n.func.value.id == name and n.func.attr in _MUTATORS:
+                hit = True
+            elif isinstance(n, ast.AugAssign) and isinstance(n.target, ast.Name) and n.target.id == name:
+                hit = True
+            elif isinstance(n, (ast.Subscript,)) and isinstance(n.ctx, (ast.Store, ast.Del)) and isinstance(n.value, ast.Name) \
+                    and n.value.id == name:
+                hit = True
+        if hit:
+            out.append(name)
+    return out
+
+
 def memo_decorators(fn):
     out = []
     for d in getattr(fn, 'decorator_list', []):
